@@ -593,6 +593,11 @@ where
         // failure is then the in-order failure. An attempt that merely ends there may have read
         // state its predecessor has since replaced.
         let started_at_commit_head = self.scheduler_ctx.committed_idx() == txid;
+        // In-order execution rejects a transaction with a wrong nonce before it touches anything
+        // else. An attempt at the commit head must do the same, or a failure of its execution (a
+        // database fault on the recipient, a fatal precompile) would be reported for a transaction
+        // that in-order execution merely skips.
+        executor.set_nonce_check(started_at_commit_head && !self.cfg.disable_nonce_check);
         #[cfg(feature = "verif-hooks")]
         crate::verif::rt::pt2("exec_begin", txid, incarnation);
         let IncarnationExecution { result, accesses } =
